@@ -12,7 +12,7 @@ sed -i "s|path = \"/repo/core\"|path = \"$mx/repo/core\"|; s|path = \"/repo\"|pa
 cp /verif/known_findings.json $mx/
 export EGSIM_VERIF_DIR=$mx
 : > /verif/benign/RESULTS.txt
-for d in /verif/benign/*/; do
+for d in $(ls -d /verif/benign/*/ | sort ${BENIGN_SORT:-}); do
   id=$(basename "$d"); [ -f "$d/patch.diff" ] || continue
   git -C $mx/repo apply "$d/patch.diff" || { echo "$id: cannot apply" | tee -a /verif/benign/RESULTS.txt; continue; }
   if ! (cd $mx/sim && cargo build --release --offline >/dev/null 2>&1); then echo "$id: build failed" | tee -a /verif/benign/RESULTS.txt; git -C $mx/repo checkout -q -- .; continue; fi
